@@ -226,10 +226,27 @@ class ReadGrammar:
 
     def read_expr(self, e):
         """A reading expression -> token core (without target)."""
-        if isinstance(e, ast.Compare) and len(e.ops) == 1 and isinstance(e.ops[0], ast.NotEq) and isinstance(e.comparators[0], ast.Constant) \
-                and e.comparators[0].value == 0:
-            core = self.read_expr(e.left)
-            return ("wrap", "neq0", core)
+        if isinstance(e, ast.Call) and isinstance(e.func, ast.Name) and e.func.id == "bool" and len(e.args) == 1 and not e.keywords:
+            return ("wrap", "neq0", self.read_expr(e.args[0]))
+        if isinstance(e, ast.UnaryOp) and isinstance(e.op, ast.Not) and isinstance(e.operand, ast.Compare):
+            inner = self.read_expr(e.operand)
+            if inner[0] == "wrap" and isinstance(inner[1], tuple) and inner[1][0] == "test":
+                flipped = tuple((x, not v) for x, v in inner[1][1])
+                return ("wrap", "neq0" if all(v == (x != 0) for x, v in flipped) else ("test", flipped), inner[2])
+        if isinstance(e, ast.Compare) and len(e.ops) == 1:
+            # a number turned into a truth value: the reference is "!= 0"; any other test is kept as its truth table over
+            # sample numbers (zero, both signs, large), which differs from the reference's exactly when the test does
+            l, r = e.left, e.comparators[0]
+            const = r if isinstance(r, ast.Constant) else l if isinstance(l, ast.Constant) else None
+            other = l if const is r else r
+            if const is not None and type(const.value) is int and not isinstance(other, ast.Constant):
+                import operator
+                ops = {ast.NotEq: operator.ne, ast.Eq: operator.eq, ast.Lt: operator.lt, ast.LtE: operator.le, ast.Gt: operator.gt, ast.GtE: operator.ge}
+                fn = ops.get(type(e.ops[0]))
+                if fn is not None:
+                    core = self.read_expr(other)
+                    table = tuple((x, bool(fn(x, const.value) if const is r else fn(const.value, x))) for x in (-2, -1, 0, 1, 2, 252, 253, 64008))
+                    return ("wrap", "neq0" if all(v == (x != 0) for x, v in table) else ("test", table), core)
         if isinstance(e, ast.BinOp) and isinstance(e.op, (ast.Add, ast.Sub)) and isinstance(e.right, (ast.Constant, ast.Name)):
             return ("wrap", ("off", "+" if isinstance(e.op, ast.Add) else "-", src(e.right)), self.read_expr(e.left))
         if isinstance(e, ast.Call):
